@@ -84,6 +84,26 @@ var scenarios = []scenario{
 		s.opRestart()
 		s.opRead(g, 4096, 4096)
 		s.opRead(h, 0, 4096)
+		// a sparse file whose SIZE lies in the double-indirect range while its data end in the
+		// indirect range: the truncation walks down through a range that has no index block at all
+		k := s.mk("create", s.root(), "k")
+		s.opWrite(k, 0, 40*4096, 2, pat(0x5a, 40*4096))
+		big := uint64(600 * 4096)
+		s.opSetattr(k, &big, timeHow{}, timeHow{})
+		small := uint64(10 * 4096)
+		s.opSetattr(k, &small, timeHow{}, timeHow{})
+		mid := uint64(40 * 4096)
+		s.opSetattr(k, &mid, timeHow{}, timeHow{})
+		s.opRead(k, 12*4096, 28*4096)
+		// ... and removed: whoever gets the inode number next starts from nothing
+		m := s.mk("create", s.root(), "m")
+		s.opWrite(m, 0, 40*4096, 2, pat(0x6b, 40*4096))
+		s.opSetattr(m, &big, timeHow{}, timeHow{})
+		s.opRemove("remove", s.root(), "m")
+		s.pokeInodeAlloc(inumOf(m) - 1)
+		n := s.mk("create", s.root(), "n")
+		s.opSetattr(n, &mid, timeHow{}, timeHow{})
+		s.opRead(n, 0, 40*4096)
 	}},
 	{"failed rename leaves the source in place", func(s *seqRun) {
 		s.mk("create", s.root(), "src")
